@@ -10,12 +10,15 @@ tables `Gen/NotifNames.lean`, which are REGENERATED from the defcon sources on e
   `will_did_criterion_sound`), and then evaluated over the whole catalogue by `decide`.
 * The catalogue is tied to the sources by `catalogue_follows_source` (`decide` over the regenerated
   statement-order skeletons) and by the correspondence runs of harness/props/c08.py.
-* Sentence 3 is `documented_posted` (`decide` over the regenerated name tables).
+* Sentence 3 is `documented_posted` (`decide` over the regenerated name tables) and, for the notification a
+  component posts because ANOTHER object changed (`Component.BaseGlyphDataChanged`), section 5:
+  `base_glyph_data_changed_posted` about M-Follow (`DefconModel/Follow.lean`), for every history.
 * Where the code violates a sentence the full statement is kept as a `def … : Prop`, the proved part
   is `…_partial` and each recorded finding has a `…_violated` witness.
 -/
 import DefconModel.Lemmas.Setters
 import DefconModel.Lemmas.SettersArith
+import DefconModel.Lemmas.Follow
 import DefconModel.Gen.NotifNames
 
 namespace DefconModel.Props.C08
@@ -189,6 +192,28 @@ theorem insertGlyph_will_twice :
       [("Layer.GlyphWillBeAdded", .will), ("Layer.GlyphWillBeAdded", .will), ("Layer.GlyphAdded", .did)] := by
   decide
 
+/-- the operations that hand an object built by the caller to a container -/
+def insertEntries : List Entry :=
+  [glyphInsertContour, glyphInsertComponent, glyphInsertAnchor, glyphInsertGuideline, fontInsertGuideline]
+
+/-- rejected_insert_announces_nothing.  `insertContour / insertComponent / insertAnchor / insertGuideline` (glyph and
+font; `appendX` is `insertX(len, x)`) of an object that an assertion rejects — it is already a member, it belongs to
+another parent, one of its identifiers is known to the container, or the incoming object carries one identifier
+TWICE (two points of a contour, a point and its contour) — from every store: nothing is delivered (no
+will-notification for an addition that does not happen), the store is unchanged, the call raises. -/
+theorem rejected_insert_announces_nothing (e : Entry) (he : e ∈ insertEntries) (env : Env) (σ : Store)
+    (h : truthy (env.args.getD 2 .none) = true) :
+    (runOp e env σ).evs = [] ∧ (runOp e env σ).store = σ ∧ (runOp e env σ).status = .raised := by
+  have hb : ∃ rest, e.body = A (Atom.reject (.arg 2) :: rest) := by
+    simp only [insertEntries, List.mem_cons, List.not_mem_nil, or_false] at he
+    rcases he with rfl | rfl | rfl | rfl | rfl <;> exact ⟨_, rfl⟩
+  obtain ⟨rest, hb⟩ := hb
+  have h1 : stepA env (init σ) (Atom.reject (.arg 2)) = { init σ with status := .raised } := by
+    have h' : truthy (env.args[2]?.getD Val.none) = true := by simpa using h
+    simp [stepA, stepAtom, init, eval, h']
+  rw [runOp, hb, run_A, runAtoms_cons, h1, runAtoms_halted _ _ _ (by simp)]
+  simp [init]
+
 /-! ## 4 (placed here: it completes sections 1 and 2). The entries outside the syntactic criteria
 
 The four margin setters compute their new value by integer arithmetic on the glyph's bounds, the image
@@ -247,7 +272,58 @@ theorem documented_posted : DocumentedPostedAll := by
 /-- the table is not empty: `Layer` documents `Layer.GlyphAdded`, and `newGlyph` posts it -/
 example : ((T.cls "Layer").map (fun c => decide ("Layer.GlyphAdded" ∈ c.documented))) = some true := by decide +kernel
 
+/-! ## 5. Sentence 3 for a relayed notification — `Component.BaseGlyphDataChanged`
+
+Class `Component` documents `Component.BaseGlyphDataChanged`; the operations that can trigger it are not
+operations of the component: they are whatever changes the data of the glyph the component refers to BY NAME —
+an edit of that glyph, its deletion, its creation, its replacement by `newGlyph` / `insertGlyph` over the name
+or by ANOTHER glyph renamed onto the name, its own renaming.  M-Follow (`DefconModel/Follow.lean`) transcribes
+the six callbacks of objects/component.py and the layer operations that feed them. -/
+
+/-- component_follows_base_glyph.  After EVERY history of layer, glyph and component operations (glyphs created,
+replaced by a new object under the same name, deleted, renamed — also onto a name that is taken —, outlines edited,
+components attached, removed, pointed to another name) every component observes exactly the glyph OBJECT the
+layer files under its base name at that moment, and the layer itself when there is none. -/
+theorem component_follows_base_glyph (ops : List Follow.Op) :
+    ∀ c ∈ (Follow.run {} ops).comps, Follow.Bound (Follow.run {} ops).filed c :=
+  (Follow.inv_run Follow.inv_empty ops).bound
+
+/-- base_glyph_data_changed_posted.  From every state reachable by any history, for every operation and every
+attached component: if the data of the component's base glyph — the outline of the glyph the layer files under
+`component.baseGlyph`, "no such glyph" included — is not the same after the operation as before it, the
+component posts `Component.BaseGlyphDataChanged` during the operation. -/
+theorem base_glyph_data_changed_posted (ops : List Follow.Op) (op : Follow.Op) (c : Follow.Comp)
+    (hc : c ∈ (Follow.run {} ops).comps)
+    (h : Follow.baseData (Follow.step (Follow.run {} ops) op).1 c ≠ Follow.baseData (Follow.run {} ops) c) :
+    c.id ∈ (Follow.step (Follow.run {} ops) op).2 :=
+  Follow.posted_of_changed (Follow.inv_run Follow.inv_empty ops) op c hc h
+
+/-- glyph "b" (object 2) is renamed onto "a", the base glyph of component 7: the component posts at the rename
+(its base glyph's outline is now 20, it was 10) and at the next edit of object 2 -/
+example :
+    let w := Follow.run {} [.newGlyph "a" 1 10, .newGlyph "b" 2 20, .newGlyph "c" 3 0, .addComp 7 "a"]
+    let r := Follow.step w (.rename "b" "a")
+    (Follow.baseData w ⟨7, "a", .glyph 1⟩, Follow.baseData r.1 ⟨7, "a", .glyph 2⟩, r.2, (Follow.step r.1 (.edit 2 21)).2,
+      r.1.comps) = (some 10, some 20, [7], [7], [⟨7, "a", .glyph 2⟩]) := by decide
+/-- delete and re-create, rename away and back: posted every time, the watch switches to the layer and back -/
+example :
+    let w := Follow.run {} [.newGlyph "a" 1 10, .addComp 7 "a"]
+    ((Follow.step w (.delGlyph "a")).2, (Follow.step w (.delGlyph "a")).1.comps,
+     (Follow.step (Follow.step w (.delGlyph "a")).1 (.newGlyph "a" 2 0)).2,
+     (Follow.step w (.rename "a" "z")).2, (Follow.step (Follow.step w (.rename "a" "z")).1 (.rename "z" "a")).2) =
+    ([7], [⟨7, "a", .layer⟩], [7], [7], [7]) := by decide
+/-- the invariant is what carries the theorem: a component left watching the object that USED to be filed under
+its base name (what a callback that ignores `Layer.GlyphNameChanged` produces) hears nothing of the glyph that
+is filed there now -/
+example : (Follow.step { filed := [("a", 2)], data := [(1, 10), (2, 20)], comps := [⟨7, "a", .glyph 1⟩] } (.edit 2 21)).2 = [] := by
+  decide
+
 /-! ## Non-vacuity: concrete runs, and the criteria at work -/
+
+/-- a contour whose identifiers clash is refused without a word; the same contour, accepted, is announced and added -/
+example : ((runOp glyphInsertContour { args := [.int 0, .int 5, .int 1] } [("contours", .list [4])]).evs.length,
+    (runOp glyphInsertContour { args := [.int 0, .int 5, .int 0] } [("contours", .list [4])]).evs.map (fun ev => ev.name)) =
+    (0, ["Glyph.ContourWillBeAdded", "Glyph.ContoursChanged"]) := by decide
 
 /-- a rename delivers Will (old name still readable) then Changed (new name readable), payloads (3, 8) -/
 example : ((runOp glyphName { args := [.int 8] } [("_name", .int 3)]).evs.map
